@@ -75,7 +75,7 @@ def _list_slice(slize: Slice) -> List[Slice]:
     if isinstance(slize.parent, Signal) and width(slize) == 1:
         # One selected bit, written with a non-unit step. Replace it by the plain index of that bit.
         index = slize.bot if step > 0 else slize.top - 1
-        return [slize.parent[index]]
+        return _list_slice(slize.parent[index])
 
     # Do some actual work. Recursively peel off a bit at a time.
     if width(slize) == 1:
